@@ -173,6 +173,50 @@ func cmdFragCheck(args []string) int {
 			}
 		}
 	}
+	// ---- sender -> receiver, long messages (more than 65535 bytes once encoded) and instance tags with the
+	// top bit set; the receiver must hand back exactly the text, once
+	if *part == 0 {
+		for _, version := range []int{2, 3} {
+			for ti, tags := range [][2]uint32{{0x00aaaaaa, 0x00bbbbbb}, {0x9a5f0301, 0xffffffff}, {0x80000000, 0x00000100}} {
+				for _, L := range []int{3000, 65535, 65536, 70000, 200000} {
+					for _, S := range []int{500, 4000, 65535} {
+						if ti > 0 && (L > 3000 || S != 500) {
+							continue
+						}
+						data := make([]byte, L)
+						for i := range data {
+							data[i] = "abcdefghijklmnopqrstuvwxyz ABCDEFGHIJKLMNOPQRSTUVWXYZ0123456789"[(i*17+i/61)%63]
+						}
+						w := world.New(9, nil)
+						a := w.AddParty("A", "B", world.PolicyFromBits(3), version)
+						otr3.VerifSetInstanceTags(a.Conv, tags[0], tags[1])
+						frags := otr3.VerifFragment(a.Conv, data, uint16(S))
+						wb := world.New(9, nil)
+						b := wb.AddParty("B", "A", world.PolicyFromBits(3), version)
+						otr3.VerifSetInstanceTags(b.Conv, tags[1], 0)
+						got := 0
+						for i, fr := range frags {
+							plain, _, err := b.Conv.Receive(fr)
+							if plain != nil {
+								got++
+								if i != len(frags)-1 || !bytes.Equal(plain, data) {
+									report("end-to-end", fmt.Sprintf("v%d L=%d S=%d tags=%x: piece %d/%d returned %d bytes", version, L, S, tags, i+1, len(frags), len(plain)))
+								}
+							}
+							if err != nil {
+								report("end-to-end", fmt.Sprintf("v%d L=%d S=%d tags=%x: piece %d/%d refused: %v", version, L, S, tags, i+1, len(frags), err))
+								break
+							}
+						}
+						if got != 1 {
+							report("end-to-end", fmt.Sprintf("v%d L=%d S=%d tags=%x: the reassembled message was processed %d times", version, L, S, tags, got))
+						}
+						e2e++
+					}
+				}
+			}
+		}
+	}
 	fmt.Printf("FRAGE2E %d\n", e2e)
 	fmt.Printf("FRAGCHECK replayed=%d sender_evaluations=%d violations=%d\n", replayed, evaluated, viol)
 	return 0
